@@ -116,7 +116,8 @@ def check_setter(chk, prog, env, model):
                 elif exists and not replace:
                     want_code, want_muts = V['EXIST'], [()]
                 else:
-                    want_muts = [('json_object_del', 'json_object_set_new')] if exists else [('json_object_set_new',)]
+                    # overwrite: delete-then-set, or set alone (jansson's set replaces an existing member)
+                    want_muts = [('json_object_del', 'json_object_set_new'), ('json_object_set_new',)] if exists else [('json_object_set_new',)]
                     want_code = V['NONE'] if rc == 0 else V['INVALID']
             else:
                 if nameless or (tname == 'STR' and not has_val):
@@ -124,7 +125,9 @@ def check_setter(chk, prog, env, model):
                 elif exists and not replace:
                     want_code, want_muts = V['EXIST'], [()]
                 else:
-                    want_muts = [('json_object_del', 'json_object_set_new')] if exists else [('json_object_set_new',)]
+                    want_muts = [('json_object_del', 'json_object_set_new'), ('json_object_set_new',)] if exists else [('json_object_set_new',)]
+                    if exists and tname == 'INT':
+                        want_muts.append(('json_integer_set',))     # the stored member in these cells is an integer: in-place update is an overwrite too
                     want_code = V['NONE'] if rc == 0 else V['INVALID']
             for code, er, muts, flags, s, it in outs:
                 problems = []
